@@ -1,7 +1,7 @@
 //! Synchronisation primitives used under `--cfg jubako_verif_loom` (verification only):
 //! loom's `Mutex` and a `Condvar` with the `wait_while` of std (loom's has none).
 
-pub(crate) use loom::sync::{Mutex, MutexGuard};
+pub(crate) use loom::sync::{Mutex, MutexGuard, RwLock};
 use std::sync::LockResult;
 
 #[derive(Debug)]
